@@ -17,6 +17,10 @@ package guts_cli
 //@ ghost var grsequence mapto[int,int]
 //@ ghost var lastps int       -- page size found by the most recent ReadPageAndHWMSize
 
+// content of the file as a function of (page id, number of writes issued so far): two reads with no write in between agree
+//@ uninterp func ftxid(pg int, ver int) int
+//@ uninterp func froot(pg int, ver int) int
+
 //@ func ReadPageAndHWMSize
 //@   opaque
 //@   returns (pageSize, hwm, err)
@@ -30,6 +34,7 @@ package guts_cli
 //@   ensures err == nil ==> p != nil && p == pageat(buf) && p.id == pageID && interior(p) && len(buf) >= 512
 //@   ensures err == nil ==> (let m := metaof(p) in grtxid[pageID] == m.txid && grroot[pageID] == m.root.root && grsequence[pageID] == m.root.sequence && grfreelist[pageID] == m.freelist && grpgid[pageID] == m.pgid && grmagic[pageID] == m.magic && grversion[pageID] == m.version && grpagesize[pageID] == m.pageSize && grflags[pageID] == m.flags)
 //@   ensures forall j int :: j != pageID ==> grtxid[j] == old(grtxid[j]) && grroot[j] == old(grroot[j]) && grsequence[j] == old(grsequence[j]) && grfreelist[j] == old(grfreelist[j]) && grpgid[j] == old(grpgid[j]) && grmagic[j] == old(grmagic[j]) && grversion[j] == old(grversion[j]) && grpagesize[j] == old(grpagesize[j]) && grflags[j] == old(grflags[j])
+//@   ensures err == nil ==> grtxid[pageID] == ftxid(pageID, fwcount) && grroot[pageID] == froot(pageID, fwcount)
 //@   ensures fwcount == old(fwcount)
 //@   modifies lastps, grtxid, grroot, grsequence, grfreelist, grpgid, grmagic, grversion, grpagesize, grflags, osopenpath, osopenflag, all("os.File.gpath"), all("os.File.gflag")
 
@@ -41,7 +46,7 @@ package guts_cli
 //@   ensures [target] fwcount == old(fwcount) + 1 ==> fwpath == path && fwlen == len(pageBuf) && osopenflag == 1      -- O_WRONLY
 //@   ensures [success] err == nil ==> fwcount == old(fwcount) + 1
 //@   ensures [snapshot] fwcount == old(fwcount) + 1 ==> (let m := metaof(pageat(pageBuf)) in fwpageid == pageat(pageBuf).id && fwtxid == m.txid && fwroot == m.root.root && fwsequence == m.root.sequence && fwfreelist == m.freelist && fwpgid == m.pgid && fwmagic == m.magic && fwversion == m.version && fwpagesize == m.pageSize && fwflags == m.flags && fwsumok == (m.checksum == msum(m)))
-//@   ensures [offset] fwcount == old(fwcount) + 1 ==> fwoff == pageat(pageBuf).id * lastps && fwlen == lastps * (pageat(pageBuf).overflow + 1)
+//@   ensures [offset] fwcount == old(fwcount) + 1 && pageat(pageBuf).id <= 1099511627776 ==> fwoff == pageat(pageBuf).id * lastps && fwlen == lastps * (pageat(pageBuf).overflow + 1)
 //@   ensures [unwritten] fwcount == old(fwcount) ==> fwpath == old(fwpath) && fwpageid == old(fwpageid)
 
 //@ func GetActiveMetaPage
